@@ -92,6 +92,14 @@ func c10Isolation(c *Chooser, env *Env, defective, faults bool) *Outcome {
 			faultDesc += kind + "@" + target + ";"
 		}
 	}
+	if !defective && !faults && len(mw.Repos) > 0 && mw.Repos[0].Config != "" && c.Weighted("world.configfileopt", 1, 8) {
+		// an explicitly given configuration file applies to every file of the run, whatever repository it is in
+		w.Opts.ConfigFile = mw.Repos[0].Root + "/.github/actionlint.yaml"
+		if _, ok := w.Disk.Files[w.Opts.ConfigFile]; !ok {
+			w.Opts.ConfigFile = mw.Repos[0].Root + "/.github/actionlint.yml"
+		}
+		o.probe("explicit_config_file", 1)
+	}
 	if c.Weighted("world.workingdiropt", 1, 6) {
 		// a library caller that passes LinterOptions.WorkingDir while its process runs somewhere
 		// else (another repository of the world, or /): arguments are absolute
@@ -196,7 +204,7 @@ func c10Isolation(c *Chooser, env *Env, defective, faults bool) *Outcome {
 	anyAloneFatal := ""
 	for i, spelled := range w.Files {
 		abs := mw.AbsArgs[i]
-		key := aloneKey{dh, w.Cwd + "|" + w.Opts.WorkingDir, spelled, faultDesc}
+		key := aloneKey{dh, w.Cwd + "|" + w.Opts.WorkingDir + "|" + w.Opts.ConfigFile, spelled, faultDesc}
 		alone, ok := c10Alone[key]
 		if !ok {
 			aw := *w
